@@ -15,6 +15,8 @@ import (
 
 const modPath = "github.com/pion/transport/v3"
 
+var verifRoot = "/verif"
+
 type Engine struct {
 	repo      string
 	prog      *ssa.Program
@@ -79,6 +81,14 @@ func loadEngine(repo string, patterns []string, tags string) (*Engine, error) {
 			return nil, err
 		}
 		e.contracts[path] = pc
+	}
+	// trusted contracts of standard-library functions
+	if verifRoot != "" {
+		pc, err := loadContractsFile("std", filepath.Join(verifRoot, "contracts"), filepath.Join(verifRoot, "contracts", "std_contracts.go"))
+		if err != nil {
+			return nil, err
+		}
+		e.contracts["std"] = pc
 	}
 	// index functions of module packages
 	for path, sp := range e.spkgs {
